@@ -235,6 +235,9 @@ class ReferenceCache:
         if not any(block.references) and block not in self._references:
             # No direct or indirect references, so nothing to retarget.
             return
+        if to_block is None and not any(self.get_references(block)):
+            # Only empty reference trees were left behind for this block.
+            return
         assert to_block
 
         # Get indirect references and detach them from the block.
